@@ -1013,9 +1013,9 @@ class Food(UnitConversions):
                     self.kcals * other,
                     self.fat * other,
                     self.protein * other,
-                    self.kcals_units + " each month",
-                    self.fat_units + " each month",
-                    self.protein_units + " each month",
+                    self.kcals_units.replace(" per month", "") + " each month",
+                    self.fat_units.replace(" per month", "") + " each month",
+                    self.protein_units.replace(" per month", "") + " each month",
                 )
 
             # this is a food and other is a non food
